@@ -1157,7 +1157,7 @@ class RZILTransformer(Transformer):
                 return None
 
         self.il_ops_holder.rm_op_by_name(a.get_name())
-        name = f'const_{"neg" if result < 0 else "pos"}_{result}'
+        name = f'const_{"neg" if result < 0 else "pos"}_{abs(result)}'
         return Number(name, result, a_type)
 
     def simplify_arithmetic_expr(self, items) -> Pure:
